@@ -37,6 +37,26 @@ SIGN_NAMES = ['a', 'b', 'aa', '(a)', '(a|b)', '(a', 'a)', '(', '!a', '-a', '!(a)
               '-@(a)', '!(a', '-(a', '!a)', '-a)', '!(', '-(', '!', '-']
 
 
+# brackets as the PARSER reads them, holding a `|` (added with the D34 repair: `WcSplit._sequence` ended `[[:alpha:]|]` at the `]` of the
+# class and `[]|]` at its first `]`, so SPLIT cut the pattern at a `|` that is a bracket member): a POSIX class before the bar, a leading
+# `]`, `^` as negation, a leading `-` / `[`, escaped members; alone and followed by a real alternative
+BAR_BRACKETS = ['[[:alpha:]|]', '[]|]', '[^]|]', '[!]|]', '[^|]', '[[:digit:]|x]', '[x[:digit:]|]', '[[|]', '[-|]', '[]-|]', '[\\]|]',
+                '[a[:alpha:]]|]', '[[:alpha:]', '[[:alpha:]|', '[[:alpha|]', '[[:bogus:]|]', '[![:alpha:]|]', '[^[:alpha:]|]']
+BAR_TAILS = ['', 'x', '|c', 'x|c', '|[]|]']
+BAR_NAMES = ['a', 'b', 'c', '|', ']', 'x', '1', '|x', ']x', 'ax', '1x', '[', '-', '\\', ':', '|]', 'a]', '[:alpha:]|]', '[[:alpha:]', '[[:alpha:]|',
+             '[]', '^', '!', '[[:alpha', '[[:bogus:]', ':]', 'a|]', 'c]', '[a', ']|]']
+
+
+def bar_grid(F, G):
+    for apiname in API_NAMES:
+        mod = F if apiname.startswith('fnmatch') else G
+        for sub in range(4):
+            flags = mod.SPLIT | (mod.EXTMATCH if sub & 1 else 0) | (mod.NEGATE if sub & 2 else 0)
+            for b in BAR_BRACKETS:
+                for t in BAR_TAILS:
+                    yield apiname, [b + t], flags
+
+
 def sign_grid(F, G):
     """(api name, patterns, flags) for ['*', prefix+body] under all 8 subsets of {NEGATE, MINUSNEGATE, EXTMATCH}"""
     for apiname in API_NAMES:
@@ -183,7 +203,9 @@ def run(ck: Check) -> int:
                    'SPLIT, BRACE, EXTMATCH, DOTMATCH, NODIR, GLOBSTAR} x {fnmatch, filter, compile, translate, globmatch, globfilter} x '
                    f'{len(NAMES)} names, str and bytes; PLUS the sign grid: [*, prefix+body] for prefix in {{!, -, \\!, \\-, none}} x '
                    f'{len(SIGN_BODY)} bodies (incl. `(`-initial ones) x all 8 subsets of {{NEGATE, MINUSNEGATE, EXTMATCH}} x the 8 APIs x '
-                   f'{len(SIGN_NAMES)} names; compared with the Lean loops: outcome, regex texts, match bits')
+                   f'{len(SIGN_NAMES)} names; PLUS the bracket-bar grid: {len(BAR_BRACKETS)} bracket expressions holding a `|` (after a POSIX class, after a '
+                   f'leading `]`, under `^`/`!` negation, unterminated) x {len(BAR_TAILS)} tails x SPLIT x subsets of {{EXTMATCH, NEGATE}} x the 8 APIs x '
+                   f'{len(BAR_NAMES)} names; compared with the Lean loops: outcome, regex texts, match bits')
         seen = set()
         for k in range(n):
             pats, excl = gen_list(R, 4 if not deep else 5, 3 if not deep else 4)
@@ -229,6 +251,19 @@ def run(ck: Check) -> int:
                 sr.disagree({'stream': 'K4-lists(sign grid)', 'api': api.name, 'patterns': pats, 'exclude': None, 'flags': flags,
                              'bytes': False, 'difference': d})
             records.append((api, pats, None, flags, False, real, d is None, SIGN_NAMES, (pre, body)))
+        # deterministic part: brackets that hold a `|`, under SPLIT
+        for apiname, pats, flags in bar_grid(F, G):
+            api = K.API_BY_NAME[apiname]
+            real = real_bits(w, api, pats, None, flags, BAR_NAMES, False)
+            mo, line = w.model(drv, api, pats, None, flags, 1000, False, BAR_NAMES)
+            sr.evaluations += len(BAR_NAMES)
+            seen.add((api.name, tuple(pats), None, flags, False))
+            d = K.compare(api, real, mo, False)
+            sr.histogram['bar-grid'] = sr.histogram.get('bar-grid', 0) + 1
+            if d:
+                sr.disagree({'stream': 'K4-lists(bracket-bar grid)', 'api': api.name, 'patterns': pats, 'exclude': None, 'flags': flags,
+                             'bytes': False, 'difference': d})
+            records.append((api, pats, None, flags, False, real, d is None, BAR_NAMES, None))
         sr.distinct = len(seen)
     if drv is not None:
         ck.stream('K4-lists', s_k4)
